@@ -1,1 +1,331 @@
+/-
+C11 — property theorems (kept apart from the helper lemmas).
+
+Statement: for every HTTP app configuration, each hostname named in a host matcher of a
+server that is not confined to the HTTP port, and not excluded by the skip settings, gets
+certificate management (an applicable automation policy, with the internal issuer for
+names no public CA can certify) and, where the HTTP port carries no user route for it, an
+HTTP to HTTPS redirect to the right port; servers confined to the HTTP port get neither.
+The resulting servers, routes and policies are the same every time the same configuration
+is provisioned.
+
+Every theorem quantifies over ALL configurations, ALL values of the certmagic predicates
+(`Params`) and ALL iteration orders `π : Orders` of the Go maps phase 1 ranges over.
+Clauses the unchanged tree violates are proved false in `Witness.lean` (`…_full_fails`)
+and proved here under an explicit decidable exclusion (`…_partial`).
+-/
 import CaddyModel.C11.Lemmas
+import CaddyModel.C11.Witness
+
+namespace CaddyModel.C11
+
+/-! ### a small configuration used by the `example`s -/
+
+/-- names: 0 = "", 1 = a public name, 2 = a local name, 3 = a tailscale name -/
+def exP : Params :=
+  { q := fun d => d == 1 || d == 2 || d == 3, pub := fun d => d == 1 || d == 3, ip := fun _ => false,
+    internal := fun d => d == 2, loaded := fun _ => false, ts := fun d => d == 3, mw := fun a b => a == b }
+
+def exTcp (p : Nat) : Addr := ⟨0, [], p, p⟩
+
+/-- `s0` serves names 1 2 3 on :8443; `s1` is the user's own HTTP server on :80 with a
+    host route for name 1 and a catch-all -/
+def exCfg : Config :=
+  ⟨0, 0,
+   [⟨[exTcp 8443], false, false, false, false, 0, [], [], [⟨[[1, 2]]⟩, ⟨[[3]]⟩]⟩,
+    ⟨[exTcp 80], false, false, false, false, 0, [], [], [⟨[[1]]⟩, ⟨[]⟩]⟩],
+   [], none⟩
+
+/-! ### certificates -/
+
+/-- **coverage.** Every name that qualifies (named by a server that is not disabled and not
+    confined to the HTTP port, not skipped, a certifiable subject without a loaded
+    certificate) is handed to certificate management and some automation policy applies to
+    it — or it is a tailscale name no explicit policy lists, and then it sits in an implicit
+    policy with the tailscale certificate manager.  For every iteration order. -/
+theorem coverage (c : Config) (P : Params) (π : Orders) (d : Name) (h : qualifies c P d = true) :
+    (d ∈ certsOf c P π ∧ (policyFor P d (policiesOf c P π)).isSome = true) ∨
+    (P.ts d = true ∧ explicitPolicy c d = false ∧ ∃ p ∈ policiesOf c P π, d ∈ p.subjects ∧ 0 < p.managers) := by
+  by_cases ht : explicitPolicy c d = false ∧ P.ts d = true
+  · right
+    refine ⟨ht.2, ht.1, ?_⟩
+    have hd : d ∈ (loopB P c.policies π (mainLoop c P π).1).tailscale :=
+      (mem_tailscaleOf c P π d).mpr ⟨h, ht.1, ht.2⟩
+    refine ⟨⟨(loopB P c.policies π (mainLoop c P π).1).tailscale, [],
+      (baseOf (((loopB P c.policies π (mainLoop c P π).1).pols).map fillDefault)).managers + 1⟩, ?_, hd, by simp⟩
+    unfold policiesOf createPolicies withTailscale
+    have hne : (loopB P c.policies π (mainLoop c P π).1).tailscale.isEmpty = false := by
+      cases hl : (loopB P c.policies π (mainLoop c P π).1).tailscale with
+      | nil => rw [hl] at hd; simp at hd
+      | cons => rfl
+    simp only [hne, Bool.false_eq_true, if_false]
+    exact mem_addPolicy.mpr (Or.inl rfl)
+  · left
+    exact ⟨(mem_certsOf c P π d).mpr ⟨h, ht⟩,
+      policyFor_isSome_of_catchAll (createPolicies_has_catchAll P _ _ _)⟩
+
+example : qualifies exCfg exP 1 = true ∧ qualifies exCfg exP 3 = true := by decide
+
+/-- no name is managed that does not qualify (in particular: nothing that only disabled or
+    HTTP-port-only servers name, nothing skipped, nothing with a loaded certificate) -/
+theorem certs_only_qualifying (c : Config) (P : Params) (π : Orders) (d : Name) (h : d ∈ certsOf c P π) :
+    qualifies c P d = true :=
+  ((mem_certsOf c P π d).mp h).1
+
+example : 2 ∈ certsOf exCfg exP Orders.id := by decide
+
+/-- **internal issuer.** A managed name that no public CA can certify and that no explicit
+    policy lists resolves (`getAutomationPolicyForName`) to a policy whose only issuer is the
+    internal one.  Hypotheses on certmagic: `MatchWildcard d d`, and a tailscale subject
+    never matches a non-tailscale name. -/
+theorem internal_issuer_for_nonpublic (c : Config) (P : Params) (π : Orders) (d : Name)
+    (hd : d ∈ certsOf c P π) (hpub : P.pub d = false) (hexp : explicitPolicy c d = false)
+    (hrefl : P.mw d d = true) (hts : ∀ o, P.ts o = true → P.mw d o = false) :
+    ∃ p, policyFor P d (policiesOf c P π) = some p ∧ p.issuers = [Issuer.internal] ∧ d ∈ p.subjects := by
+  obtain ⟨hq, hnt⟩ := (mem_certsOf c P π d).mp hd
+  have htsd : P.ts d = false := by
+    cases h : P.ts d with
+    | false => rfl
+    | true => exact absurd ⟨hexp, h⟩ hnt
+  have hin : d ∈ (loopB P c.policies π (mainLoop c P π).1).internal :=
+    (mem_internalOf c P π d).mpr ⟨hq, hexp, htsd, Or.inl hpub⟩
+  have hne : (loopB P c.policies π (mainLoop c P π).1).internal.isEmpty = false := by
+    cases hl : (loopB P c.policies π (mainLoop c P π).1).internal with
+    | nil => rw [hl] at hin; simp at hin
+    | cons => rfl
+  refine ⟨⟨(loopB P c.policies π (mainLoop c P π).1).internal, [Issuer.internal],
+    (baseOf (((loopB P c.policies π (mainLoop c P π).1).pols).map fillDefault)).managers⟩, ?_, rfl, hin⟩
+  unfold policiesOf createPolicies
+  have hint : ∀ pols, policyFor P d (withInternal P (baseOf (((loopB P c.policies π (mainLoop c P π).1).pols).map fillDefault))
+      (loopB P c.policies π (mainLoop c P π).1).internal pols) =
+      some ⟨(loopB P c.policies π (mainLoop c P π).1).internal, [Issuer.internal],
+        (baseOf (((loopB P c.policies π (mainLoop c P π).1).pols).map fillDefault)).managers⟩ := by
+    intro pols
+    unfold withInternal
+    simp only [hne, Bool.false_eq_true, if_false]
+    exact policyFor_addPolicy_self hin hrefl pols
+  unfold withTailscale
+  split
+  · exact hint _
+  · rename_i htl
+    rw [policyFor_addPolicy_other]
+    · exact hint _
+    · simp only [admits, Bool.or_eq_false_iff, List.any_eq_false]
+      refine ⟨by simpa using htl, ?_⟩
+      intro o ho
+      have := ((mem_tailscaleOf c P π o).mp ho).2.2
+      simp [hts o this]
+
+example : 2 ∈ certsOf exCfg exP Orders.id ∧ exP.pub 2 = false ∧ explicitPolicy exCfg 2 = false := by decide
+
+/-! ### servers confined to the HTTP port (or disabled) -/
+
+/-- **HTTP-only servers get neither.** A server that is disabled or listens only on the HTTP
+    port keeps its TLS connection policies (none are added) and is marked disabled; a name
+    that only such servers name is neither managed nor listed by any redirect route.
+    (`d ≠ 0`: name 0 is the empty string, the code's key for the catch-all redirect.) -/
+theorem http_only_server_gets_nothing (c : Config) (P : Params) (π : Orders) (hres : c.reserved = none) :
+    (∀ s ∈ c.servers, active c s = false →
+      ∃ kv ∈ serversOf c P π, kv.2.listen = s.listen ∧ kv.2.tls = s.tls ∧
+        kv.2.disabled = (s.disabled || !usesOther s.listen (httpPort c)) ∧
+        ∀ rt ∈ userRoutes s.routes 0, rt ∈ kv.2.routes) ∧
+    (∀ d, d ≠ 0 → (∀ s ∈ c.servers, hosts s d = true → active c s = false) →
+      d ∉ certsOf c P π ∧ ∀ kv ∈ serversOf c P π, ∀ rt ∈ kv.2.routes, rt.lists d = false) := by
+  constructor
+  · intro s hs ha
+    have inv := loopF_inv c (!(certsOf c P π).isEmpty) π (rsOf c P π)
+    obtain ⟨i, hi⟩ := exists_indexed 0 (List.mem_map.mpr ⟨s, hs, rfl⟩ : srvInit c s ∈ c.servers.map (srvInit c))
+    obtain ⟨y, hy, hrel⟩ := inv.bwd (i, srvInit c s) hi
+    refine ⟨y, ?_, hrel.listen, ?_, hrel.disabled, hrel.mono⟩
+    · change y ∈ finalServers c π _
+      unfold finalServers
+      split
+      · exact hy
+      · rw [hres]; exact List.mem_append.mpr (Or.inl hy)
+    · rw [hrel.tls]
+      simp [srvInit, tlsOut, ha]
+  · intro d hd0 hall
+    constructor
+    · intro hin
+      have hq := certs_only_qualifying c P π d hin
+      simp only [qualifies, List.any_eq_true, qualifiesOn, Bool.and_eq_true] at hq
+      obtain ⟨s, hs, ⟨⟨⟨ha, _⟩, hh⟩, _⟩⟩ := hq
+      rw [hall s hs hh] at ha; cases ha
+    · intro kv hkv rt hrt
+      cases hl : rt.lists d with
+      | false => rfl
+      | true =>
+        exfalso
+        have hred : rt.isRedir = true := by
+          cases rt with
+          | user => simp [Route.lists] at hl
+          | redir => rfl
+        rcases serversOf_redir_sound c P π hkv hrt hred with h | ⟨R, h⟩
+        · rw [h] at hl; simp [catchAllRoute, Route.lists] at hl
+        · obtain ⟨a, doms, _, h2, _, h4⟩ := rsOf_sound c P π h
+          rw [h2] at hl
+          obtain ⟨s, hs, hr, hk, _⟩ := h4 d (mkRedirRoute_lists hl)
+          rcases mem_keysOf_cases.mp hk with ⟨_, h0⟩ | ⟨_, hds⟩
+          · exact hd0 h0
+          · have := hall s hs (hosts_iff.mpr hds)
+            rw [active_of_engaged (redirOn_iff.mp hr).1] at this; cases this
+
+example : active exCfg ⟨[exTcp 80], false, false, false, false, 0, [], [], [⟨[[1]]⟩, ⟨[]⟩]⟩ = false := by decide
+
+/-! ### redirects -/
+
+/-- **port rule.** Every redirect route of every resulting server either names no port, or
+    names the start port of a listener of a redirect-enabled server — and never 80, 443, the
+    configured HTTP port or the configured HTTPS port. -/
+theorem redirect_port_rule (c : Config) (P : Params) (π : Orders) {kv : Nat × SrvOut} {rt : Route}
+    (hkv : kv ∈ serversOf c P π) (hrt : rt ∈ kv.2.routes) (hred : rt.isRedir = true) :
+    rt.port = 0 ∨
+    (rt.port ≠ httpPort c ∧ rt.port ≠ httpsPort c ∧ rt.port ≠ 80 ∧ rt.port ≠ 443 ∧
+      ∃ s ∈ c.servers, redirOn c s = true ∧ ∃ a ∈ s.listen, a.sp = rt.port) := by
+  rcases serversOf_redir_sound c P π hkv hrt hred with h | ⟨R, h⟩
+  · left; rw [h]; simp [catchAllRoute, Route.port, portRule]
+  · obtain ⟨a, doms, _, h2, h3, h4⟩ := rsOf_sound c P π h
+    rw [h2, mkRedirRoute_port]
+    unfold portRule
+    split
+    · rename_i hp
+      right
+      refine ⟨hp.1, hp.2.1, hp.2.2.1, hp.2.2.2, ?_⟩
+      cases doms with
+      | nil => exact absurd rfl h3
+      | cons d _ =>
+        obtain ⟨s, hs, hr, _, ha⟩ := h4 d (by simp)
+        exact ⟨s, hs, hr, a, ha, rfl⟩
+    · exact Or.inl rfl
+
+example : ∃ kv ∈ serversOf exCfg exP Orders.id, ∃ rt ∈ kv.2.routes, rt.isRedir = true ∧ rt.port = 8443 := by decide
+
+theorem redirOn_of_redirectsOn {c : Config} {s : Server} {d : Name} (h : redirectsOn c s d = true) :
+    redirOn c s = true ∧ d ∈ keysOf s := by
+  simp only [redirectsOn, Bool.and_eq_true, Bool.not_eq_true'] at h
+  obtain ⟨⟨ha, hr⟩, hh⟩ := h
+  have hd := hosts_iff.mp hh
+  refine ⟨redirOn_iff.mpr ⟨by rw [engaged_of_mem_domainSet hd]; exact ha, hr⟩, ?_⟩
+  refine mem_keysOf_cases.mpr (Or.inr ⟨?_, hd⟩)
+  cases hl : domainSet s with
+  | nil => rw [hl] at hd; simp at hd
+  | cons => rfl
+
+/-- **redirect exists** (the provable part; the full clause is `Witness.redirect_exists_full_fails`).
+    If server `s` is not disabled, not confined to the HTTP port, has redirects enabled and
+    names `d` (not skipped), then some resulting server that listens on the HTTP port of the
+    network/host of a listener `a` of a redirect-enabled server naming `d` holds a redirect
+    route that covers `d` (lists it, or has no host matcher) and names `a`'s port by the port
+    rule.  Exclusions: no user server carries the reserved name of the generated redirect
+    server, and either some name has a managed certificate or no configured server listens on
+    any redirect address (the `len(uniqueDomainsForCerts) != 0` test of issue 4829). -/
+theorem redirect_exists_partial (c : Config) (P : Params) (π : Orders) (hres : c.reserved = none)
+    {s : Server} {d : Name} (hs : s ∈ c.servers) (h : redirectsOn c s d = true)
+    (hins : (certsOf c P π).isEmpty = false ∨
+      ∀ s' ∈ c.servers, ∀ a, hasListener s'.listen (redirAddr c a) = false) :
+    ∃ a, (∃ s' ∈ c.servers, redirOn c s' = true ∧ d ∈ keysOf s' ∧ a ∈ s'.listen) ∧
+      ∃ kv ∈ serversOf c P π, hasListener kv.2.listen (redirAddr c a) = true ∧
+        ∃ rt ∈ kv.2.routes, rt.isRedir = true ∧ rt.covers d = true ∧ rt.port = portRule c a.sp := by
+  obtain ⟨hr, hk⟩ := redirOn_of_redirectsOn h
+  obtain ⟨a, doms, hmem, hd, hsrc⟩ := rsOf_complete c P π hs hr hk
+  refine ⟨a, hsrc, ?_⟩
+  have hins' : (certsOf c P π).isEmpty = false ∨ ∀ s' ∈ c.servers, hasListener s'.listen (redirAddr c a) = false := by
+    rcases hins with h | h
+    · exact Or.inl h
+    · exact Or.inr (fun s' hs' => h s' hs' a)
+  obtain ⟨kv, hkv, hl, hin⟩ := serversOf_redir_complete c P π hres hmem hins'
+  exact ⟨kv, hkv, hl, _, hin, mkRedirRoute_isRedir, mkRedirRoute_covers hd, mkRedirRoute_port⟩
+
+example : redirectsOn exCfg ⟨[exTcp 8443], false, false, false, false, 0, [], [], [⟨[[1, 2]]⟩, ⟨[[3]]⟩]⟩ 2 = true ∧
+    (certsOf exCfg exP Orders.id).isEmpty = false := by decide
+
+/-- **position of the inserted redirects.** In every configured server of the result the
+    route list is: the user routes up to and including the last one with a host matcher (none
+    if no user route has one), then redirect routes, then the remaining user routes — none of
+    which has a host matcher — then redirect routes (the appended catch-alls).  So the
+    redirects sit after every host-matcher route and before the user's catch-all routes. -/
+theorem redirect_position (c : Config) (P : Params) (π : Orders) (hres : c.reserved = none)
+    {kv : Nat × SrvOut} (hkv : kv ∈ serversOf c P π) (hk : kv.1 < c.servers.length) :
+    ∃ s ∈ c.servers, ∃ mid cs,
+      kv.2.routes = (userRoutes s.routes 0).take (findLast (userRoutes s.routes 0)) ++ mid ++
+        (userRoutes s.routes 0).drop (findLast (userRoutes s.routes 0)) ++ cs ∧
+      (∀ r ∈ mid, r.isRedir = true) ∧ (∀ r ∈ cs, r.isRedir = true) ∧
+      (∀ r ∈ (userRoutes s.routes 0).drop (findLast (userRoutes s.routes 0)), r.hasHost = false) := by
+  obtain ⟨s, hs, mid, cs, h1, h2, h3⟩ := serversOf_shaped c P π hres hkv hk
+  exact ⟨s, hs, mid, cs, h1, h2, h3, (findLast_spec _).2⟩
+
+example : ∃ kv ∈ serversOf exCfg exP Orders.id, kv.1 = 1 ∧
+    kv.2.routes = [Route.user 0 true, Route.redir (some [1, 2, 3]) 8443, Route.user 1 false, Route.redir none 0] := by
+  decide
+
+/-! ### the same result every time -/
+
+/-- every listener of every redirect-enabled server that contributes key `d` starts at port `p₀`
+    (the name is served on one port only) -/
+def singlePort (c : Config) (d : Name) (p₀ : Nat) : Bool :=
+  c.servers.all fun s => !(redirOn c s && (keysOf s).contains d) || s.listen.all fun a => decide (a.sp = p₀)
+
+/-- a name served on a single port is redirected to that port by every redirect route that
+    lists it, in every server, for every iteration order -/
+theorem redirect_port_deterministic (c : Config) (P : Params) (π : Orders) (d : Name) (p₀ : Nat)
+    (h : singlePort c d p₀ = true) {kv : Nat × SrvOut} {rt : Route}
+    (hkv : kv ∈ serversOf c P π) (hrt : rt ∈ kv.2.routes) (hl : rt.lists d = true) :
+    rt.port = portRule c p₀ := by
+  have hred : rt.isRedir = true := by
+    cases rt with
+    | user => simp [Route.lists] at hl
+    | redir => rfl
+  rcases serversOf_redir_sound c P π hkv hrt hred with h' | ⟨R, h'⟩
+  · rw [h'] at hl; simp [catchAllRoute, Route.lists] at hl
+  · obtain ⟨a, doms, _, h2, _, h4⟩ := rsOf_sound c P π h'
+    rw [h2] at hl ⊢
+    obtain ⟨s, hs, hr, hk, ha⟩ := h4 d (mkRedirRoute_lists hl)
+    simp only [singlePort, List.all_eq_true, Bool.or_eq_true, Bool.not_eq_true', Bool.and_eq_false_iff,
+      decide_eq_true_eq] at h
+    rcases h s hs with (h1 | h1) | h1
+    · rw [hr] at h1; cases h1
+    · have : (keysOf s).contains d = true := by simpa using hk
+      rw [this] at h1; cases h1
+    · rw [mkRedirRoute_port, h1 a ha]
+
+/-
+**Determinism, full statement** (false on the unchanged tree — `Witness.deterministic_full_fails`,
+`Witness.receiver_depends_on_order`, `Witness.effective_depends_on_route_order`):
+
+    ∀ c P π π', SameResult (phase1Result c P π) (phase1Result c P π')
+-/
+
+/-- **determinism, the provable part**, for ALL configurations and ALL pairs of iteration
+    orders: (1) `allCertDomains` is the same set; (2) the automation policies are the same list
+    up to the order of the subjects inside the implicit internal / tailscale policies;
+    (3) every configured server keeps its listeners and gets the same `Disabled` flag and the
+    same TLS-connection-policy state; (4) every name that is served on one port only (the
+    decidable exclusion `singlePort`; DESIGN F16 needs a name on two ports) is redirected to
+    that port by every redirect route that lists it.  NOT covered by this theorem: that the
+    SET of redirect routes, their placement and their order coincide for configurations with
+    `ambiguous c = false` — that part is carried by the correspondence stream and the
+    repeated-provision oracle only. -/
+theorem deterministic_partial (c : Config) (P : Params) (π π' : Orders) :
+    (∀ d, d ∈ (phase1Result c P π).certs ↔ d ∈ (phase1Result c P π').certs) ∧
+    samePolicies (phase1Result c P π).policies (phase1Result c P π').policies ∧
+    (c.reserved = none → ∀ k, k < c.servers.length →
+      obsAt (phase1Result c P π) k flagsOf = obsAt (phase1Result c P π') k flagsOf) ∧
+    (∀ d p₀, singlePort c d p₀ = true →
+      ∀ r, (r = phase1Result c P π ∨ r = phase1Result c P π') →
+        ∀ kv ∈ r.servers, ∀ rt ∈ kv.2.routes, rt.lists d = true → rt.port = portRule c p₀) := by
+  refine ⟨?_, policies_same c P π π', ?_, ?_⟩
+  · intro d
+    change d ∈ certsOf c P π ↔ d ∈ certsOf c P π'
+    rw [mem_certsOf, mem_certsOf]
+  · intro hres k hk
+    have : ∃ s, c.servers[k]? = some s := ⟨c.servers[k], by simp [hk]⟩
+    obtain ⟨s, hs⟩ := this
+    rw [server_flags c P π hres k s hs, server_flags c P π' hres k s hs]
+  · intro d p₀ h r hr kv hkv rt hrt hl
+    rcases hr with rfl | rfl
+    · exact redirect_port_deterministic c P π d p₀ h hkv hrt hl
+    · exact redirect_port_deterministic c P π' d p₀ h hkv hrt hl
+
+example : singlePort exCfg 2 8443 = true ∧ ambiguous exCfg = false := by decide
+
+end CaddyModel.C11
